@@ -7,6 +7,7 @@
 -/
 import VotelibModel.Convert
 import VotelibModel.CondorcetEval
+import VotelibModel.CondorcetRanked
 namespace VL.PreConv
 open VL VL.Convert
 
@@ -39,5 +40,10 @@ def condorcetRuleAt {α : Type} (ab : Bool) (ev : Condorcet.Pairwise → Nat →
 
 def condorcetSeatlessAt {α : Type} (ab : Bool) (ev : Condorcet.Pairwise → α) (p : RProfile) : α :=
   ev (rankedToCondorcet ab p)
+
+/-- `Benham().evaluate(votes, n_seats)` for any `n_seats` (sequential.py L724-741): the evaluator starts with
+    `assert n_seats == 1`; with one seat it is the one-seat model of C05 (`Condorcet.benham`) -/
+def benhamN (p : Condorcet.Profile) (n : Nat) : Except Err (List Slot) :=
+  if n = 1 then Condorcet.benham p else .error (.other "AssertionError")
 
 end VL.PreConv
